@@ -36,8 +36,8 @@ _store_error_displays: Dict[str, Dict[str, Callable[..., str]]] = {
 
 
 def _format_trigger_id_representation(id_: int, uuid: UUID) -> str:
-    if (name := getters.get_trigger(uuid, id_).name) is not None:
-        return f"\"{trunc_string(name)}\""
+    if (trigger := getters.get_trigger(uuid, id_)) is not None:
+        return f"\"{trunc_string(trigger.name)}\""
     return _store_error_displays['triggers']['invalid_reference']()
 
 
